@@ -51,6 +51,8 @@ def py_valid(y, m, d):
 
 
 WD = ['Mon', 'Tue', 'Wed', 'Thu', 'Fri', 'Sat', 'Sun']
+WDFULL = ['Monday', 'Tuesday', 'Wednesday', 'Thursday', 'Friday', 'Saturday', 'Sunday']
+MONTHS = ['January', 'February', 'March', 'April', 'May', 'June', 'July', 'August', 'September', 'October', 'November', 'December']
 
 
 class DS:
@@ -73,6 +75,8 @@ class Tx:
     def parts(self):
         """date strings in the order ledger parses them (textual.cc parse_xact: aux first;
         item.cc parse_tags: aux first)"""
+        if self.xa is None and self.pa is None and self.pd is None:
+            return [('xd', self.xd)]
         return [(k, v) for k, v in (('xa', self.xa), ('xd', self.xd), ('pa', self.pa), ('pd', self.pd)) if v is not None]
 
 
@@ -242,10 +246,25 @@ def oracle_date_text(text, want, what):
     return None
 
 
+def expected_text(want):
+    """the OUTF text of a day according to python's calendar"""
+    y, m, d = want
+    dt = datetime.date(y, m, d)
+    wd = dt.weekday()
+    return '%04d-%02d-%02d %s %d %d %03d %02d %2d %s %s %s' % (y, m, d, WD[wd], wd + 1, (wd + 1) % 7, dt.toordinal() - datetime.date(y, 1, 1).toordinal() + 1,
+                                                           y % 100, d, MONTHS[m - 1][:3], WDFULL[wd], MONTHS[m - 1])
+
+
 def judge_tx(t, impl, field_of=None):
     """Oracle on one transaction -> list of (key, desc, observed, required)"""
-    out = []
     parts = t.parts()
+    if len(parts) == 1 and impl[0] == 'ok':
+        it = parts[0][1].intent
+        if it and it[0] == 'date':
+            e = expected_text(it[1])
+            if impl[1][0] == e and impl[1][2] == e:
+                return ()
+    out = []
     rejects = [(k, ds) for k, ds in parts if ds.intent and ds.intent[0] == 'reject']
     alldates = all(ds.intent and ds.intent[0] == 'date' for k, ds in parts)
     if impl[0] == 'ok':
@@ -264,6 +283,11 @@ def judge_tx(t, impl, field_of=None):
                 else:
                     txt = f[1] if k == 'xa' else f[3]
                     j = None if txt == '%04d/%02d/%02d' % want else ('other-day', '%04d/%02d/%02d' % want)
+                if j and j[0] == 'other-day' and ds.kind == 'md-now' and k in ('xd', 'pd') and want[1:] == (2, 28):
+                    p = parse_outf(f[0] if k == 'xd' else f[2])
+                    if p and (p[0], p[1], p[2]) == (want[0], 2, 29):
+                        # the specific class of finding F20; any other shift keeps the generic key
+                        j = ('feb-28-becomes-feb-29-of-previous-leap-year', j[1])
                 if j:
                     out.append(('shifted:%s:%s' % (ds.kind, j[0]), '%r read as a date prints as %r' % (ds.s, f), '|'.join(f), j[1]))
     elif impl[0] == 'err':
@@ -553,6 +577,9 @@ def g_custom(ctx, rng, npairs, per):
 
 
 # ------------------------------------------------------------------------------------------ the run
+CANON_RE = re.compile(r'\d{4}/\d\d/\d\d$')
+
+
 def last_pre(txs, i):
     """the directive lines in force at transaction i (the most recent non-empty `pre`)"""
     if txs[i].cur is None:
@@ -569,11 +596,12 @@ def process_group(ctx, res, g, impl, mres, date_format_mode=False):
         want = model_expect(t, i, mres)
         res.evaluations += 1
         res.traces += 1
-        kinds = '+'.join(sorted(set(ds.kind for _, ds in t.parts())))
+        parts = t.parts()
+        kinds = parts[0][1].kind if len(parts) == 1 else '+'.join(sorted(set(ds.kind for _, ds in parts)))
         res.count('kind:' + kinds)
         res.count('impl:' + (ri[0] if ri[0] != 'err' else 'err:' + ri[1]))
-        canon = '%s|%s|%s' % (','.join(g.extra), t.cur if any(ds.kind.startswith('md') or ds.kind.startswith('custom') for _, ds in t.parts()) else '', '='.join(ds.s for _, ds in t.parts()))
-        trivial = (len(t.parts()) == 1 and re.fullmatch(r'\d{4}/\d\d/\d\d', t.xd.s) and ri[0] == 'ok' and not g.extra)
+        canon = '%s|%s|%s' % (','.join(g.extra), t.cur if any(ds.kind.startswith('md') or ds.kind.startswith('custom') for _, ds in parts) else '', '='.join(ds.s for _, ds in parts))
+        trivial = (len(parts) == 1 and not g.extra and ri[0] == 'ok' and len(t.xd.s) == 10 and CANON_RE.match(t.xd.s))
         if not trivial:
             res.nontrivial.add(canon)
         unsupported = (want[0] == 'err' and want[1] == 'Unsupported') or (want[0] == 'ok' and any(x is None for x in want[1]))
